@@ -21,6 +21,7 @@ CLASS_PROPERTY = {
     "stale_read": "C09", "final_store_content": "C09",
     "batch_identity": "C10", "batch_content": "C10", "batch_order": "C10", "final_content": "C10", "after_commit_lost": "C10",
     "not_canonical": "C15",
+    "kv_point_read": "C11", "kv_member_scan": "C11",
     "pinned_entry_lost": "C16", "stale_or_ghost_value": "C16", "bound_exceeded": "C16",
     "lost_element": "C02", "set_not_linearizable": "C02",
     "unstable_in_epoch": "C06",
@@ -238,6 +239,29 @@ PROPS["C16"] = dict(
     assumptions=["the per-query lock table built on it is covered at engine level by C02 (single-flight) only"],
 )
 
+PROPS["C11"] = dict(
+    bin="kv_sim", packages=["kv_sim"], args=[],
+    quick_s=60, thorough_s=600, level="exploration", also=[],
+    rule=("the real RocksDB and Fjall backends on a scratch directory (removed after each run); 7 wide-column slots "
+          "over 4 columns (byte-string keys with prefixed u8 discriminant and two value types under one key; String "
+          "keys with suffixed String discriminants 'a' / 'ab'; unit key and unit discriminant; nested tuple key with "
+          "suffixed tuple discriminant) and 3 key-of-set columns; keys / elements from an adversarial pool (empty, "
+          "[0], [0,0], [1] / [1,0], 'a' / 'ab' / 'abc', 0xFF runs of 1, 2, 9, 300 and 3000 bytes, an 8-byte string "
+          "that looks like a length prefix, multi-byte varints); histories of 8-40 (thorough 120) operations: begin "
+          "up to 3 batches, put / delete / insert-member / delete-member directly or through serialization buffers, "
+          "commit or abandon in any order, point reads, member scans, close / reopen; a final reopen and read of "
+          "everything. Oracle: reference map per (slot, key) and reference set per (set column, key); uncommitted and "
+          "abandoned batches are invisible, a committed batch applies as a whole in issue order, scans return exactly "
+          "the members of exactly that key without duplicates. non-trivial = >=2 commits, >=1 reopen, reads; distinct "
+          "= hash(scenario)"),
+    components=dict(real=["qbice_storage::kv_database::rocksdb::RocksDB (librocksdb)", "qbice_storage::kv_database::fjall::Fjall",
+                          "postcard encoding of keys, discriminants and values"],
+                    stub=[]),
+    assumptions=["the backends' internal flush / compaction threads are real and not scheduled by the simulation; a "
+                 "result must be stable over 3 executions to count as reproduced",
+                 "fault kinds here are close/reopen and abandoned batches; kill -9 belongs to C08"],
+)
+
 HOOK_COMMITS = ["06b6edb", "0ffc033", "d5f7b95", "752f4f3"]
 
 NOT_BUILT = "check not built yet (work in progress in this session; see DESIGN.md section 8 for the order of construction)"
@@ -251,6 +275,14 @@ for _p in [ "C09", "C10", "C11", "C12", "C13", "C15", "C16"]:
         NOT_APPLICABLE[_p] = NOT_BUILT
 
 MANIFEST_TEXT = {
+    "C11": dict(
+        text=("Model-based simulation of API histories against the real backends with close/reopen and abandoned "
+              "batches as fault kinds and adversarial key material; evidence over sampled histories. The backends' "
+              "own background threads are outside the simulator's control (stated limitation)."),
+        design_ref="DESIGN.md section 4 C11",
+        note="trusted: reference map; RocksDB / Fjall determinism for a fixed API history",
+        technique="deterministic simulation of API histories with reopen faults against a reference model (real backends)",
+    ),
     "C09": dict(
         text=("Seeded exploration of operation histories x pipeline-step placements x cache capacities x racing "
               "readers against a per-register reference (single-writer register rule)."),
